@@ -36,7 +36,7 @@ ok = ok and step("demo_with_patch_fails", "cargo test --offline %s --test mut_de
 caught = {}
 if ok:
     for c in checks:
-        p = subprocess.run("VERIF_FROZEN=1 VERIF_REPO=%s ./check %s quick" % (wt, c), shell=True, cwd="/verif", stdout=subprocess.PIPE, stderr=subprocess.STDOUT)
+        p = subprocess.run("VERIF_FROZEN=1 VERIF_REPO=%s ./check %s quick" % (wt, c), shell=True, cwd=os.environ.get("VERIF_ROOT", "/verif"), stdout=subprocess.PIPE, stderr=subprocess.STDOUT)
         out = p.stdout.decode("utf-8", "replace")
         v = [l for l in out.split("\n") if l.startswith("VIOLATION")]
         caught[c] = {"rc": p.returncode, "violations": len(v), "first": v[0] if v else ""}
